@@ -196,7 +196,10 @@ META = {
    level_text='Proved in Coq for every text (any number of lines): if loading with verification reaches verify_file, the text handed over is exactly '
               'the BEGIN..END slice of the unique framework, only blank lines surround it, and the entries are exactly those of the dash-unescaped body '
               '(C04_signed_text, against the declarative spec Spec/Cleartext.v); a BEGIN line is never ignored; failures are syntax/unsigned errors; '
-              'the verify flag does not change the entries. The clause about gpg-authenticated cleartext is carried by the real-gpg differential run.',
+              'the verify flag does not change the entries; once the lines read end a complete signed block the first non-blank line that follows makes the load fail as unsigned data '
+              '(as a syntax error when it looks like armor), and a signed block that begins after entries is unsigned data (C04_content_after_signed_block, '
+              'C04_signed_block_after_content; the same relation is judged on the implementation for every generated text). '
+              'The clause about gpg-authenticated cleartext is carried by the real-gpg differential run.',
    level_note='About the model (Model/Text.v load); tie: exhaustive line-class sequences and gpg-signed mutations run through both; '
               'GnuPG behaviour (what it authenticates) is an oracle, exercised with gpg 2.2 on every run.'),
  'C05': dict(engine='coq+pgp', design_ref='DESIGN.md section 5 C05',
